@@ -23,6 +23,7 @@ def ensure():
         """init: user-sign costs of the initial generation; script[k]: costs installed by cycle k+1."""
         init: list[float] = [1.0]
         script: list[list[float]] = [[1.0]]
+        table: list[float] | None = None      # lookup mode: positions are indexes into this table of costs
 
     class ScriptedOptimizer(OptimizationAbstract):
         """Installs, at cycle k, a population whose (user-sign) costs are script[k-1]."""
@@ -33,8 +34,17 @@ def ensure():
         def set_config_parameters(self, parameters: dict[str, Any]):
             self._config = ScriptedConfig(**parameters)
 
+        def _pos(self, c):
+            t = self._config.table
+            if t is None:
+                return [c]
+            for i, v in enumerate(t):
+                if v == c or (v != v and c != c):
+                    return [i]
+            raise ValueError(f"cost {c!r} not in the table")
+
         def _init_population(self):
-            self._population = [self._init_agent([c]) for c in self._config.init]
+            self._population = [self._init_agent(self._pos(c)) for c in self._config.init]
 
         def optimization_step(self):
             sim = kernel.ACTIVE
@@ -42,7 +52,7 @@ def ensure():
             calls.append(self._current_cycle)
             k = len(calls)                       # number of invocations so far (independent of the cycle counter)
             row = self._config.script[min(k - 1, len(self._config.script) - 1)]
-            self._population = [self._init_agent([c]) for c in row]
+            self._population = [self._init_agent(self._pos(c)) for c in row]
 
     class TunableConfig(BaseOptimizationConfig):
         a: float = 0.0
